@@ -914,6 +914,73 @@ fn lc_race_family(ctx: &Ctx, report: &mut Report) -> Result<(), String> {
     Ok(())
 }
 
+/// A node below an assume-valid target (initial download of production nodes: script execution is
+/// skipped) must still bind every block to the chain it extends: a block whose extension commits to
+/// another root (header rebuilt consistently), and a genuine header delivered with another
+/// extension, are refused; the honest block is accepted afterwards and what the node then serves
+/// for its tip commits to the reference root.
+fn assume_valid_family(ctx: &Ctx, report: &mut Report) -> Result<(), String> {
+    let cons = consensus(&WorldOpts::default());
+    set_time(time_for_height(40));
+    let mut forge = Forge::new(&ctx.scratch.join("c19-forge-av"), &cons)?;
+    let u = c18::build(&mut forge, &cons)?;
+    let dir = ctx.scratch.join("c19-assume-valid");
+    let _ = std::fs::remove_dir_all(&dir);
+    let mut opts = NodeOpts::new(cons.clone());
+    opts.assume_valid = true;
+    let node = Node::boot(&dir, &opts)?;
+    node.wait_startup()?;
+    if node.shared.assume_valid_targets().is_none() {
+        return Err("the node is not in assume-valid mode".into());
+    }
+    let label = json!({"family": "assume-valid"});
+    for k in 0..u.a.len() {
+        let honest = &u.a[k];
+        let ext = honest.extension().ok_or("block without extension")?.raw_data().to_vec();
+        let mut wrong = ext.clone();
+        wrong[7] ^= 0x40;
+        // (a) another root, header rebuilt: consistent in itself, a different block
+        let forged = honest.as_advanced_builder().extension(Some(ckb_types::bytes::Bytes::from(wrong.clone()).pack())).build();
+        // (b) the genuine header with another extension
+        let swapped = packed::BlockV1::new_builder().header(honest.data().header()).uncles(honest.data().uncles()).transactions(honest.data().transactions()).proposals(honest.data().proposals()).extension(ckb_types::bytes::Bytes::from(wrong).pack()).build().as_v0().into_view_without_reset_header();
+        for (what, cand) in [("a block committing to another chain root (header rebuilt consistently)", forged), ("the genuine header delivered with another extension", swapped)] {
+            report.evaluations += 1;
+            report.transitions += 1;
+            let tip_before = node.tip().hash();
+            match node.process(&cand) {
+                Err(_) => {
+                    report.nontrivial.insert(fp(&("assume-valid", k, what)));
+                }
+                Ok(v) => report.violation("root/wrong-root-accepted-below-assume-valid-target", format!("block {} below an assume-valid target: {what} was answered Ok({v})", honest.number()), label.clone()),
+            }
+            if node.tip().hash() != tip_before {
+                report.violation("root/wrong-root-accepted-below-assume-valid-target", format!("block {}: after {what} the tip moved", honest.number()), label.clone());
+                node.shutdown();
+                return Ok(());
+            }
+        }
+        if !deliver(&node, honest, "assume-valid family", &label, report) {
+            break;
+        }
+        let main = node.main_chain();
+        let snap = node.shared.snapshot();
+        let t = main.last().unwrap().number();
+        if t >= 1 {
+            let got = snap.chain_root_mmr(t - 1).get_root().map_err(|e| e.to_string())?;
+            let want = ref_root(&main, t as usize - 1)?;
+            let stored = snap.get_block(&snap.tip_hash()).and_then(|b| b.extension()).map(|e| e.raw_data()[..32].to_vec());
+            report.evaluations += 1;
+            if got.as_slice() != want.as_slice() || stored.as_deref() != Some(want.calc_mmr_hash().as_slice()) {
+                report.violation("root/committed-differs", format!("assume-valid node, tip {t}: the stored tip does not commit to the MMR root over its ancestors"), label.clone());
+            }
+        }
+    }
+    report.outcomes.insert(fp(&"assume-valid"));
+    report.traces += 1;
+    node.shutdown();
+    Ok(())
+}
+
 pub fn meta(_tier: Tier) -> Meta {
     Meta {
         id: "C19",
@@ -982,6 +1049,7 @@ pub fn run(ctx: &Ctx) -> Report {
         if ctx.mine(2) || ctx.shards == 1 {
             lc_family(ctx, &mut report)?;
             lc_race_family(ctx, &mut report)?;
+            assume_valid_family(ctx, &mut report)?;
         }
         filters_family(ctx, &mut report)
     };
